@@ -14,6 +14,22 @@ arithmetic over Rat, tokens compared literally) and (b) an oracle that is indepe
            apply_symetry_on_elast_data(read_elast_data(input)), volumes and given components with the generating data.
 A separate malformed / variant stream (blank lines, `weights`, junk before the header, missing lines, bad names…)
 is compared model-vs-code only.
+
+Added with the translator tie of the readers (tools/gens/readers_src.py), where the generators above were blind:
+  regex    : the three REGEX_* constants of the imported modules on targeted ASCII strings: Python's `re.search` vs the Lean
+             matcher on the GENERATED instruction lists (`c17.regex`) vs the model's regex-free recognisers and `str.split()`
+             vs `Regex.splitWs` (`c17.lex`) — correspondence.
+  crossing : data sets whose branches cross between volumes (mode lists not ascending, ties) through the energy oracle.
+  exponent : really written phonon files re-spelled in exponent notation (reader vs model, tokens and raw lines); more
+             exponent spellings in the static tables (oracle: float(token)).
+  labels   : every ordered pair (upper AND lower triangle), 2- and 4-index, under many prefixes (C51, C_15, 15, cij15, x15 …);
+             oracle: the tabulated value under the canonical (sorted) Voigt pair.
+  reread   : the same path read twice with an in-place apply_symetry_on_elast_data in between, and after an in-place rewrite
+             of equal size with the mtime restored (both readers); oracle: the file's own content.
+  shared   : ONE symmetry dictionary object (bare, or the full default settings block on a table in small units) reused for
+             two tables; oracle: the command's output parse = the filled parse under that very dictionary.
+  group    : `cij fill` goes through the `cij` click group after every sub-command module has been imported and `--help`
+             of each has run in-process.
 """
 from __future__ import annotations
 
@@ -34,6 +50,8 @@ ASSUMPTIONS = [
     "static tables: numeric tokens in plain or exponent decimal notation (no nan/inf/underscores); column names = digit-free prefix + 2 Voigt or 4 standard indices",
     "fill command: tables whose columns are named cIJ / CIJ with decimal-point literals, a sufficient independent component set of the system; pandas' to_string prints 6 decimals (values < 1e6, no scientific notation)",
     "every Python exception type counts as 'rejected' ('error')",
+    "regex / lexing correspondence on ASCII subjects only: `\\d` = 0-9 and `\\s` = code points 9-13, 28-32 in the Lean matcher (Python's classes agree with these below 128; non-ASCII digits / spaces are outside the model)",
+    "phonon files in exponent notation are compared reader-vs-model only (write_energy never prints an exponent, so the property's round trip does not reach them); static tables in exponent notation are under the oracle",
 ]
 TRUSTED_EXTRA = [
     "C17: character-level lexing (strip/split, the regex engine), printf/float() and pandas' read_table/to_string are outside the Lean model (tested through the real functions on every case, not proved)",
@@ -118,6 +136,29 @@ def gen_energy_case(rng, nv, nq, np_):
     weights = [[[rand_value(rng) for _ in range(3)], rand_value(rng)] for _ in range(nq)]
     return {"nv": nv, "nq": nq, "np": np_, "nm": int(rng.integers(0, 200)), "na": int(rng.integers(1, 21)),
             "weights": weights, "volumes": vols}
+
+
+def gen_energy_crossing(rng, nv, nq, np_):
+    """branches that cross between volumes: ascending at the first volume, each with its own slope, so that the order of the
+    modes of a q-point differs from volume to volume; one q-point listed descending, ties included"""
+    case = gen_energy_case(rng, nv, nq, np_)
+    for iq in range(nq):
+        base = numpy.sort(rng.uniform(-50.0, 3000.0, np_))
+        if np_ >= 4: base[1] = base[2]                                   # a degenerate pair
+        slope = rng.uniform(-400.0, 400.0, np_)
+        for iv in range(nv):
+            m = base + slope * iv
+            if iq == nq - 1: m = m[::-1]                                 # listed in descending order
+            case["volumes"][iv][3][iq][1] = [float(round(x, int(rng.integers(3, 9)))) for x in m]
+    return case
+
+
+def _unsorted_lists(case):
+    n = 0
+    for v in case["volumes"]:
+        for _, modes in v[3]:
+            if any(a > b for a, b in zip(modes, modes[1:])): n += 1
+    return n
 
 
 def _to_impl(case):
@@ -238,6 +279,23 @@ def energy_variants(rng, text, case):
     l = list(lines[:mark]); out.append(("truncated-before-marker", l))
     l = []; out.append(("empty-file", l))
     l = list(lines) + ["", "trailing text"]; out.append(("trailing-text", l))
+    # the same numbers in exponent notation (P/V/E groups, coordinates, modes, weights)
+    def respell(line, style):
+        toks = line.split()
+        outt = []
+        for t in toks:
+            try:
+                x = float(t)
+            except ValueError:
+                outt.append(t); continue
+            outt.append({"e": "%.9e" % x, "E": "%.7E" % x, "bare": ("%.9e" % x).replace("e+0", "e").replace("e+", "e").replace("e-0", "e-")}[style])
+        return " ".join(outt)
+    for style in ("e", "E", "bare"):
+        l = list(lines)
+        for i in range(first, len(l)):
+            if i != mark and l[i].strip(): l[i] = respell(l[i], style)
+        out.append(("exponent-notation-" + style, l))
+    l = list(lines); l[first] = "P= 1.5e3 V= 2.5E+2 E= -3.5e-1"; out.append(("pve-exponent-only", l))
     return [(k, "\n".join(v) + ("\n" if v else "")) for k, v in out]
 
 
@@ -255,13 +313,20 @@ def run_energy(ctx: Ctx, res: Result, tmp, n_cases):
     rng = ctx.rng
     dist = res.distribution.setdefault("energy", {"cases": 0, "numbers": 0, "nv": {}, "nq": {}, "np_bins": {},
                                                   "wider_than_format": 0, "printed_as_zero": 0, "variants": {},
-                                                  "variant_errors": 0, "variant_ok": 0})
+                                                  "variant_errors": 0, "variant_ok": 0, "crossing_cases": 0,
+                                                  "unsorted_mode_lists": 0, "mode_lists": 0, "raw_line_reads": 0})
     cases = []
     sizes = [(1, 1, 3), (12, 10, 60), (12, 1, 3), (1, 10, 60), (2, 2, 6)]
     for i in range(n_cases):
         if i < len(sizes): nv, nq, np_ = sizes[i]
         else: nv, nq, np_ = int(rng.integers(1, 13)), int(rng.integers(1, 11)), int(rng.integers(3, 61))
         cases.append(gen_energy_case(rng, nv, nq, np_))
+    # crossing branches: mode lists that are NOT ascending and differ in order from volume to volume
+    for i in range(max(3, n_cases // 4)):
+        nv, nq, np_ = [(3, 2, 6), (12, 3, 9), (2, 1, 3)][i] if i < 3 else \
+            (int(rng.integers(2, 13)), int(rng.integers(1, 6)), int(rng.integers(3, 31)))
+        cases.insert(2 + 2 * i, gen_energy_crossing(rng, nv, nq, np_))
+        dist["crossing_cases"] += 1
     # model answers in one batch per few cases (keeps memory small)
     for ci, case in enumerate(cases):
         if ctx.time_left() < 60: res.notes.append("energy stream cut short by the time budget"); break
@@ -273,6 +338,8 @@ def run_energy(ctx: Ctx, res: Result, tmp, n_cases):
         b = f"{(case['np'] // 10) * 10}-{(case['np'] // 10) * 10 + 9}"
         dist["np_bins"][b] = dist["np_bins"].get(b, 0) + 1
         dist["numbers"] += case["nv"] * (3 + case["nq"] * (3 + case["np"])) + 4 * case["nq"]
+        dist["unsorted_mode_lists"] += _unsorted_lists(case)
+        dist["mode_lists"] += case["nv"] * case["nq"]
         # ---- oracle: the generating data
         for what, obs, exp in oracle_energy(case, got):
             res.oracle_failures.append(OracleFailure(
@@ -315,6 +382,16 @@ def run_energy(ctx: Ctx, res: Result, tmp, n_cases):
             res.samples.append({"stream": "energy", "nv": case["nv"], "nq": case["nq"], "np": case["np"],
                                 "generated P,V,E[0]": case["volumes"][0][:3], "read back": got["volumes"][0][:3],
                                 "file line": text.split("\n")[5]})
+        # ---- the model tokenising the RAW lines itself (Regex.splitWs = str.split())
+        if text is not None and case["nv"] * case["nq"] * case["np"] <= 1500:
+            mr = ctx.driver.ask([{"op": "c17.read_energy_raw", "lines": text.split("\n")[:-1]}])[0]
+            dist["raw_line_reads"] += 1
+            mrv = mr if mr == "error" else _model_data_to_float(mr)
+            if mrv != gcmp:
+                res.disagreements.append(Disagreement("c17.read_energy_raw", {"kind": "energy", "case": case},
+                                                      str(gcmp)[:300], str(mrv)[:300], note="model splitting the raw lines"))
+            else:
+                res.traces_validated += 1
         # ---- variants (reader only), on small cases
         if text is not None and case["nv"] * case["nq"] * case["np"] <= 400:
             vs = energy_variants(rng, text, case)
@@ -346,13 +423,32 @@ def spell(rng, pair, style=None):
     return f"{prefix}{i}{j}"
 
 
+EXP_COUNT = {"tokens": 0}
+
+
+def exp_token(rng, x):
+    """exponent notations float() accepts: e / E, signed or bare exponent, no leading zero, trailing point"""
+    f = int(rng.integers(0, 6))
+    if f == 0: t = "%.6e" % x
+    elif f == 1: t = "%.3E" % x
+    elif f == 2: t = "%.10e" % x
+    elif f == 3: t = ("%.4e" % x).replace("e+0", "e").replace("e+", "e").replace("e-0", "e-")      # 1.5000e2
+    elif f == 4:
+        m, e = ("%.2e" % x).split("e")                                                           # mantissa without a point: 123e1
+        t = m.replace(".", "") + "e%d" % (int(e) - 2)
+    else: t = "%+.5E" % x
+    EXP_COUNT["tokens"] += 1
+    return t
+
+
 def num_token(rng, x):
-    f = rng.integers(0, 6)
+    f = rng.integers(0, 8)
     if f == 0: return repr(float(x))
     if f == 1: return "%.3f" % x
     if f == 2: return "%.8f" % x
     if f == 3: return "%.6e" % x
     if f == 4: return "%d" % round(x) if abs(x) < 1e9 else repr(float(x))
+    if f >= 6: return exp_token(rng, x)
     return ("%+.4f" % x)
 
 
@@ -544,9 +640,202 @@ def run_elast(ctx: Ctx, res: Result, tmp, n_cases):
                                                       str(real)[:300], str(mm)[:300]))
             else:
                 res.traces_validated += 1
+        if ci % 4 == 0:
+            lines = t["text"].split("\n")
+            if lines and lines[-1] == "": lines = lines[:-1]
+            mr = canon_elast_model(ctx.driver.ask([{"op": "c17.read_elast_raw", "lines": lines}])[0])
+            dist["raw_line_reads"] = dist.get("raw_line_reads", 0) + 1
+            if mr != canon_elast(d):
+                res.disagreements.append(Disagreement("c17.read_elast_raw", {"kind": "elast-text", "variant": "valid", "text": t["text"]},
+                                                      str(canon_elast(d))[:300], str(mr)[:300], note="model splitting the raw lines"))
+            else:
+                res.traces_validated += 1
         if ci < 2:
             res.samples.append({"stream": "elast", "key line": t["text"].split("\n")[2], "canonical pairs": t["expect"]["pairs"][:6],
                                 "lattice rows": len(t["expect"]["lattice"])})
+    dist["exponent_tokens"] = EXP_COUNT["tokens"]
+
+
+# ===================================================================================== labels stream (both triangles, many prefixes)
+LABEL_PREFIXES = ["c", "C", "C_", "c_", "", "cij", "Cij", "cij_", "x", "s", "k_", "c-", "C.", "elastic_c", "M", "_"]
+
+
+def label_tables(rng):
+    """per prefix three tables: the 21 upper-triangle labels `ij`, the 15 strictly-lower labels `ji`, and lower-triangle
+    4-index labels; every value distinct, so a mis-keyed column shows"""
+    upper = [(i, j) for i in range(1, 7) for j in range(i, 7)]
+    lower = [(j, i) for (i, j) in upper if i != j]
+    out = []
+    for pre in LABEL_PREFIXES:
+        for kind, spelled in (("upper", upper), ("lower", lower), ("lower-4-index", lower)):
+            order = [spelled[k] for k in rng.permutation(len(spelled))]
+            names = []
+            for (a, b) in order:
+                if kind == "lower-4-index":
+                    sa = STD_OF[a][int(rng.integers(0, len(STD_OF[a])))]; sb = STD_OF[b][int(rng.integers(0, len(STD_OF[b])))]
+                    names.append(f"{pre}{sa[0]}{sa[1]}{sb[0]}{sb[1]}")
+                else:
+                    names.append(f"{pre}{a}{b}")
+            nv = int(rng.integers(1, 4))
+            rows = []
+            for iv in range(nv):
+                rows.append(["%.4f" % (500.0 - 10.0 * iv)] + ["%.3f" % (100.0 * a + 10.0 * b + iv + 0.001 * k) for k, (a, b) in enumerate(order)])
+            lines = ["labels %s %s" % (pre or "<none>", kind), "512.25000 %d 100.500" % nv, " ".join(["V"] + names)] + [" ".join(r) for r in rows]
+            expect = {"vref": "512.25000", "nv": nv, "cellmass": "100.500", "pairs": [sorted([a, b]) for (a, b) in order],
+                      "rows": rows, "lattice": []}
+            out.append({"text": "\n".join(lines) + "\n", "expect": expect, "prefix": pre, "triangle": kind, "names": names})
+    return out
+
+
+def run_labels(ctx: Ctx, res: Result, tmp):
+    dist = res.distribution.setdefault("labels", {"tables": 0, "labels": 0, "by_prefix": {}, "by_triangle": {}})
+    tabs = label_tables(ctx.rng)
+    ms = ctx.driver.ask([{"op": "c17.read_elast", "lines": _tokens(t["text"])} for t in tabs])
+    for t, m in zip(tabs, ms):
+        d = real_read_elast_text(t["text"], tmp, "labels.dat")
+        res.evaluations += 1
+        dist["tables"] += 1; dist["labels"] += len(t["names"])
+        dist["by_prefix"][t["prefix"] or "<none>"] = dist["by_prefix"].get(t["prefix"] or "<none>", 0) + len(t["names"])
+        dist["by_triangle"][t["triangle"]] = dist["by_triangle"].get(t["triangle"], 0) + len(t["names"])
+        for what, obs, exp in oracle_elast(t["expect"], d):
+            res.oracle_failures.append(OracleFailure(
+                what=f"read_elast_data ({t['triangle']} labels, prefix {t['prefix']!r}): {what}",
+                input={"kind": "elast", "text": t["text"], "expect": t["expect"]}, observed=obs, expected=exp,
+                site=f"elast-read:{what.split('[')[0].split(' of row')[0]}"))
+            break
+        if canon_elast_model(m) != canon_elast(d):
+            res.disagreements.append(Disagreement("c17.read_elast", {"kind": "elast-text", "variant": "labels", "text": t["text"]},
+                                                  str(canon_elast(d))[:300], str(canon_elast_model(m))[:300]))
+        else:
+            res.traces_validated += 1
+
+
+# ===================================================================================== re-read stream (same path, history)
+def expect_from_text(text):
+    """the harness' own reading of a static table it generated with names `<prefix>IJ` (for the oracle)"""
+    toks = _tokens(text)
+    nv = int(toks[1][1])
+    pairs = []
+    for n in toks[2][1:]:
+        digs = n[len(n.rstrip("0123456789")):]
+        pairs.append(sorted([int(digs[0]), int(digs[1])]))
+    lat = []
+    if len(toks) > 3 + nv and toks[3 + nv]:
+        lat = toks[4 + nv: 4 + 2 * nv]
+    return {"vref": toks[1][0], "nv": nv, "cellmass": toks[1][2], "pairs": pairs, "rows": toks[3:3 + nv], "lattice": lat}
+
+
+def _bump_digit(text, nv):
+    """the same text with one digit of one table value changed (same length): an in-place edit of the file"""
+    lines = text.split("\n")
+    row = lines[3 + (nv // 2)]
+    k = max(i for i, ch in enumerate(row) if ch.isdigit())
+    row = row[:k] + str((int(row[k]) + 3) % 10) + row[k + 1:]
+    lines[3 + (nv // 2)] = row
+    return "\n".join(lines)
+
+
+def reread_elast_history(system, text, tmp, symmetry, package_level=False):
+    """read, fill the result in place, read again; then rewrite the file in place (same size, mtime restored) and read.
+    returns [(what, observed, expected)] of the property on the second and third read.
+    `package_level`: the reader as the calculator reaches it (`cij.io.traditional.read_elast_data`) instead of the
+    sub-module's function"""
+    from cij.io.traditional.elast_dat import apply_symetry_on_elast_data
+    if package_level:
+        import cij.io.traditional
+        read_elast_data = cij.io.traditional.read_elast_data
+    else:
+        from cij.io.traditional.elast_dat import read_elast_data
+    path = os.path.join(tmp, "reread.dat")
+    with open(path, "w", encoding="utf8") as fp: fp.write(text)
+    bad = []
+    try:
+        d1 = read_elast_data(path)
+        apply_symetry_on_elast_data(d1, symmetry)
+    except BaseException as e:
+        return [("first read / in-place filling raised", type(e).__name__, "a filled table")]
+    try:
+        d2 = read_elast_data(path)
+    except BaseException as e:
+        return [("second read raised", type(e).__name__, "the table")]
+    for w, o, e in oracle_elast(expect_from_text(text), d2):
+        bad.append((f"second read after in-place filling of the first result: {w}", o, e)); break
+    st = os.stat(path)
+    text2 = _bump_digit(text, int(text.split("\n")[1].split()[1]))
+    with open(path, "w", encoding="utf8") as fp: fp.write(text2)
+    os.utime(path, ns=(st.st_atime_ns, st.st_mtime_ns))
+    try:
+        d3 = read_elast_data(path)
+    except BaseException as e:
+        return bad + [("read after in-place rewrite raised", type(e).__name__, "the table")]
+    for w, o, e in oracle_elast(expect_from_text(text2), d3):
+        bad.append((f"read after an in-place rewrite (same size, same mtime): {w}", o, e)); break
+    return bad
+
+
+def reread_energy_history(case1, case2, tmp, package_level=False):
+    """write, read, write another data set of the same shape to the same path (same size, mtime restored), read"""
+    from cij.io.traditional.qha_input import write_energy
+    if package_level:
+        import cij.io.traditional
+        read_energy = cij.io.traditional.read_energy
+    else:
+        from cij.io.traditional.qha_input import read_energy
+    path = os.path.join(tmp, "reread01")
+    bad = []
+    try:
+        write_energy(path, _to_impl(case1)); r1 = _from_impl(read_energy(path))
+        st = os.stat(path)
+        write_energy(path, _to_impl(case2))
+        same_size = os.stat(path).st_size == st.st_size
+        os.utime(path, ns=(st.st_atime_ns, st.st_mtime_ns))
+        r2 = _from_impl(read_energy(path))
+    except BaseException as e:
+        return [("write/read history raised", type(e).__name__, "two data sets")], False
+    for w, o, e in oracle_energy(case1, r1): bad.append((f"first round trip: {w}", o, e)); break
+    for w, o, e in oracle_energy(case2, r2): bad.append((f"second data set written to the same path: {w}", o, e)); break
+    return bad, same_size
+
+
+def run_reread(ctx: Ctx, res: Result, tmp, n):
+    rng = ctx.rng
+    dist = res.distribution.setdefault("reread", {"elast_histories": 0, "energy_histories": 0, "energy_same_size": 0, "systems": {}})
+    for i in range(n):
+        system = SYSTEMS[1 + i % 8]                                        # every system that fills something
+        case = gen_fill_table(rng, system)
+        sym = {"system": system}
+        pkg = i % 2 == 0
+        res.evaluations += 1; dist["elast_histories"] += 1; dist["package_level_reader"] = dist.get("package_level_reader", 0) + pkg
+        dist["systems"][system] = dist["systems"].get(system, 0) + 1
+        for what, obs, exp in reread_elast_history(system, case["text"], tmp, sym, package_level=pkg):
+            res.oracle_failures.append(OracleFailure(
+                what=f"read_elast_data history: {what}",
+                input={"kind": "reread-elast", "system": system, "text": case["text"], "package_level": pkg},
+                observed=obs, expected=exp, site="elast-reread:" + what.split(":")[0]))
+            break
+    for i in range(max(2, n // 3)):
+        nv, nq, np_ = int(rng.integers(1, 5)), int(rng.integers(1, 4)), int(rng.integers(3, 10))
+        c1, c2 = gen_energy_case(rng, nv, nq, np_), gen_energy_case(rng, nv, nq, np_)
+        c2["nm"], c2["na"] = c1["nm"], c1["na"]
+        # keep every number inside the format width, so that both files have the same size
+        def clip(c):
+            for v in c["volumes"]:
+                v[0], v[1], v[2] = [max(-9999.0, min(99999.0, x)) for x in v[:3]]
+                for q in v[3]:
+                    q[0] = [max(-999.0, min(9999.0, x)) for x in q[0]]; q[1] = [max(-9999.0, min(99999.0, x)) for x in q[1]]
+            for w in c["weights"]:
+                w[0] = [max(-99.0, min(999.0, x)) for x in w[0]]; w[1] = max(-99.0, min(999.0, w[1]))
+        clip(c1); clip(c2)
+        pkg = i % 2 == 0
+        bad, same = reread_energy_history(c1, c2, tmp, package_level=pkg)
+        res.evaluations += 1; dist["energy_histories"] += 1; dist["energy_same_size"] += bool(same)
+        dist["package_level_reader"] = dist.get("package_level_reader", 0) + pkg
+        for what, obs, exp in bad:
+            res.oracle_failures.append(OracleFailure(
+                what=f"write_energy/read_energy history: {what}",
+                input={"kind": "reread-energy", "case1": c1, "case2": c2, "package_level": pkg},
+                observed=obs, expected=exp, site="energy-reread:" + what.split(":")[0]))
+            break
 
 
 # ===================================================================================== fill stream
@@ -594,10 +883,34 @@ def gen_fill_table(rng, system, style="c", ints=False, redundant=True):
             "tail": "\n".join(tail) + ("\n" if tail else ""), "head": "\n".join(lines[:2]) + "\n"}
 
 
+CLI_STATS = {"via_group": 0, "subcommand_modules_imported": [], "help_runs": 0}
+SUBCOMMAND_MODULES = ["cij.cli.main", "cij.cli.static", "cij.cli.fill", "cij.cli.extract", "cij.cli.geotherm", "cij.cli.modes",
+                      "cij.cli.plot"]
+
+
+def _prime_group():
+    """import every sub-command module and run `--help` of every command of the group once, in-process: whatever a sub-command
+    does at import / registration time (global library options …) has happened before `cij fill` runs"""
+    import importlib, warnings
+    from click.testing import CliRunner
+    from cij.cli.cij import main
+    if CLI_STATS["subcommand_modules_imported"]:
+        return
+    with warnings.catch_warnings():
+        warnings.simplefilter("ignore")
+        for m in SUBCOMMAND_MODULES:
+            importlib.import_module(m)
+            CLI_STATS["subcommand_modules_imported"].append(m)
+        for name in sorted(main.commands):
+            CliRunner().invoke(main, [name, "--help"]); CLI_STATS["help_runs"] += 1
+
+
 def run_cli(text, system, tmp, extra_args=()):
     import warnings
     from click.testing import CliRunner
     from cij.cli.cij import main          # the documented command: `cij fill -s SYSTEM FILE` (the group, as installed)
+    _prime_group()
+    CLI_STATS["via_group"] += 1
     with warnings.catch_warnings():
         warnings.simplefilter("ignore")
         import pandas  # noqa: F401  (the command imports these lazily; import them outside the captured run)
@@ -626,8 +939,10 @@ def real_filled_frame(text, system):
         return None
 
 
-def oracle_fill(case, out, tmp):
-    """property statement on the command's real output; independent part: header / tail text, volumes, given components"""
+def oracle_fill(case, out, tmp, symmetry=None):
+    """property statement on the command's real output; independent part: header / tail text, volumes, given components.
+    `symmetry`: the dictionary handed to apply_symetry_on_elast_data (default: a fresh {"system": ...}); the `shared` stream
+    passes ONE dictionary object to several calls"""
     from cij.io.traditional.elast_dat import read_elast_data, apply_symetry_on_elast_data
     if out.startswith("error:"):
         return [("cij fill failed", out, "exit code 0 and a table")]
@@ -646,7 +961,7 @@ def oracle_fill(case, out, tmp):
         return bad + [("input table not readable", pi, "a table")]
     raw_lattice = [tuple(r) for r in pi.lattice_parmeters]
     try:
-        apply_symetry_on_elast_data(pi, {"system": case["system"]})
+        apply_symetry_on_elast_data(pi, {"system": case["system"]} if symmetry is None else symmetry)
     except Exception as e:
         return bad + [("apply_symetry_on_elast_data raised on the parsed input", type(e).__name__, "filled parse")]
     if (po.vref, po.nv, po.cellmass) != (pi.vref, pi.nv, pi.cellmass):
@@ -675,15 +990,15 @@ def oracle_fill(case, out, tmp):
     return bad[:6]
 
 
-def fill_case_check(ctx, res, case, tmp, dist, known_site=None):
-    out = run_cli(case["text"], case["system"], tmp)
+def fill_case_check(ctx, res, case, tmp, dist, known_site=None, symmetry=None, extra_args=()):
+    out = run_cli(case["text"], case["system"], tmp, extra_args)
     res.evaluations += 1
-    fails = oracle_fill(case, out, tmp)
+    fails = oracle_fill(case, out, tmp, symmetry)
     if fails:
         what, obs, exp = fails[0]
         site = known_site or f"fill-cli:{what.split('[')[0].split(' of row')[0]}"
         res.oracle_failures.append(OracleFailure(
-            what=f"cij fill -s {case['system']}: {what}", input={"kind": "fill", "case": case},
+            what=f"cij fill -s {case['system']}: {what}", input={"kind": "fill", "case": case, "symmetry_history": case.get("symmetry_history")},
             observed=obs, expected=exp, site=site))
     # correspondence: the re-emission of the model with the real fill_cij result as parameter
     filled = real_filled_frame(case["text"], case["system"])
@@ -723,6 +1038,44 @@ def _close_elast(a, b, tol):
     return True
 
 
+def small_units(case, factor=1e-4):
+    """the same table in other units (every component times `factor`, 7 decimals): all values far below 0.1"""
+    lines = case["text"].split("\n")
+    nv = case["nv"]
+    for i in range(3, 3 + nv):
+        t = lines[i].split()
+        lines[i] = t[0] + "   " + "  ".join("%.7f" % (float(x) * factor) for x in t[1:])
+    c = dict(case)
+    c["text"] = "\n".join(lines)
+    c["given"] = {k: [float("%.7f" % (x * factor)) for x in v] for k, v in case["given"].items()}
+    return c
+
+
+def run_fill_shared(ctx: Ctx, res: Result, tmp, n_systems):
+    """ONE symmetry dictionary object for two tables in a row (what a driver script looping over files does)"""
+    rng = ctx.rng
+    dist = res.distribution.setdefault("fill", {"cases": 0, "systems": {}, "with_tail": 0, "no_system": 0,
+                                                "probe_int_columns": 0, "probe_name_spellings": 0})
+    sd = res.distribution.setdefault("fill_shared", {"dict_objects": 0, "calls": 0, "bare": 0, "full_settings_block": 0,
+                                                     "small_units_tables": 0})
+    systems = [SYSTEMS[1 + int(k)] for k in rng.permutation(8)[:n_systems]]
+    for si, system in enumerate(systems):
+        if ctx.time_left() < 30: res.notes.append("shared-dictionary stream cut short by the time budget"); return
+        full = si % 2 == 0
+        sym = {"system": system, "ignore_residuals": False, "ignore_rank": False, "drop_atol": 1.0e-8, "residual_atol": 0.1} \
+            if full else {"system": system}
+        sd["dict_objects"] += 1; sd["full_settings_block" if full else "bare"] += 1
+        before = copy.deepcopy(sym)
+        for rep in range(2):
+            case = gen_fill_table(rng, system, redundant=not full)
+            if full:
+                case = small_units(case); sd["small_units_tables"] += 1
+            case["symmetry_history"] = {"initial": before, "call": rep + 1}
+            fill_case_check(ctx, res, case, tmp, dist, symmetry=sym,
+                            extra_args=("--drop-atol", repr(before["drop_atol"])) if full else ())
+            sd["calls"] += 1
+
+
 def run_fill(ctx: Ctx, res: Result, tmp, per_system):
     rng = ctx.rng
     dist = res.distribution.setdefault("fill", {"cases": 0, "systems": {}, "with_tail": 0, "no_system": 0,
@@ -754,21 +1107,103 @@ def run_fill(ctx: Ctx, res: Result, tmp, per_system):
         case = gen_fill_table(rng, system, style=str(rng.choice(["C_", "c_", ""])))
         dist["probe_name_spellings"] += 1
         fill_case_check(ctx, res, case, tmp, dist, known_site="cli.fill:column-name-spelling")
+    dist["cli"] = dict(CLI_STATS)
+
+
+# ===================================================================================== regex / lexing correspondence
+WS = [" ", "  ", "\t", " \t ", "\n", "\x0b", "\x0c", "\r", "\x1c", "\x1f", "   "]
+PVE_POOL = ["P=", "V=", "E=", "x=", "==", "=", "P", "1.5", "1e3", "-2.", ".5E-2", "Pressure=", "ab=c", "a=", "=a", "P==", "7", "nan", "E=E="]
+
+
+def regex_subjects(rng, n):
+    """targeted ASCII subjects for the three patterns: (pattern name, subject as Python hands it to re.search)"""
+    out = []
+    alpha = list("cCxij_.-=+ 0123456789") + ["\t", "\n"]
+    for _ in range(n):
+        # REGEX_MODULUS on a column name (a word of a split line, but also words with inner junk / a final newline)
+        pre = "".join(rng.choice(list("cCxijs_.-=kM"), int(rng.integers(0, 5))))
+        digs = "".join(rng.choice(list("0123456789"), int(rng.integers(0, 6))))
+        tail = str(rng.choice(["", "", "", "x", "\n", " ", "_1", "a2"]))
+        mid = str(rng.choice(["", "", "", "1", "9x"]))
+        out.append(("REGEX_MODULUS", mid + pre + digs + tail))
+        out.append(("REGEX_MODULUS", "".join(rng.choice(alpha, int(rng.integers(0, 8))))))
+        # REGEX_INFO_START on line.strip()
+        k = int(rng.choice([5, 5, 5, 4, 6, 1, 0]))
+        words = [str(rng.choice(["7", "12", "003", "4096", "0"])) if rng.random() < 0.85 else str(rng.choice(["1.5", "a", "-3", "1e2", "+4"]))
+                 for _ in range(k)]
+        line = str(rng.choice(["", " ", "\t"])) + "".join(w + str(rng.choice(WS)) for w in words)
+        out.append(("REGEX_INFO_START", line.strip()))
+        # REGEX_PVE on the raw line
+        k = int(rng.integers(0, 10))
+        if rng.random() < 0.5:
+            words = [str(rng.choice(["", "data", "P", "#="])), "P=", str(rng.choice(PVE_POOL)), "V=", str(rng.choice(PVE_POOL)),
+                     str(rng.choice(["E=", "E=", "Energy=", "="])), str(rng.choice(PVE_POOL)), str(rng.choice(["", "tail", "x= 1"]))]
+            words = [w for w in words if w]
+        else:
+            words = [str(rng.choice(PVE_POOL)) for _ in range(k)]
+        line = str(rng.choice(["", " ", "\t "])) + "".join(w + str(rng.choice(WS)) for w in words)
+        if rng.random() < 0.3: line = line.rstrip()
+        out.append(("REGEX_PVE", line))
+    return out
+
+
+def run_regex(ctx: Ctx, res: Result, n):
+    """Python's re.search with the constants of the imported modules vs the Lean matcher on the GENERATED instruction lists,
+    and str.split / the regexes vs the model's regex-free recognisers (under the hypotheses of the theorems)"""
+    import re
+    from cij.io.traditional import qha_input, elast_dat
+    pats = {"REGEX_INFO_START": getattr(qha_input, "REGEX_INFO_START", None), "REGEX_PVE": getattr(qha_input, "REGEX_PVE", None),
+            "REGEX_MODULUS": getattr(elast_dat, "REGEX_MODULUS", None)}
+    dist = res.distribution.setdefault("regex", {"subjects": 0, "matches": {}, "no_match": {}, "lex_lines": 0})
+    subs = regex_subjects(ctx.rng, n)
+    ms = ctx.driver.ask([{"op": "c17.regex", "name": nm, "s": sub} for nm, sub in subs])
+    ls = ctx.driver.ask([{"op": "c17.lex", "s": sub} for nm, sub in subs])
+    for (nm, sub), m, lx in zip(subs, ms, ls):
+        res.evaluations += 1; dist["subjects"] += 1
+        try:
+            r = re.search(pats[nm], sub)
+            py = None if r is None else list(r.groups())
+        except Exception as e:
+            py = "error:" + type(e).__name__
+        dist["matches" if py else "no_match"][nm] = dist["matches" if py else "no_match"].get(nm, 0) + 1
+        ok = True
+        if m["groups"] != py:
+            ok = False
+            res.disagreements.append(Disagreement("c17.regex:" + nm, {"kind": "regex", "name": nm, "s": sub}, py, m["groups"],
+                                                  note="re.search with the module's constant vs the Lean matcher on the generated pattern"))
+        # recognisers, where the theorems' hypotheses hold
+        dist["lex_lines"] += 1
+        if lx["tokens"] != sub.split():
+            ok = False
+            res.disagreements.append(Disagreement("c17.lex:tokens", {"kind": "regex", "name": nm, "s": sub}, sub.split(), lx["tokens"]))
+        key = {"REGEX_INFO_START": "info", "REGEX_PVE": "pve", "REGEX_MODULUS": "modulus"}[nm]
+        applicable = (nm == "REGEX_PVE") or (nm == "REGEX_INFO_START" and sub == sub.strip()) or (nm == "REGEX_MODULUS" and "\n" not in sub)
+        if applicable and lx[key] != py:
+            ok = False
+            res.disagreements.append(Disagreement("c17.lex:" + key, {"kind": "regex", "name": nm, "s": sub}, py, lx[key],
+                                                  note="the model's regex-free recogniser vs re.search"))
+        if ok: res.traces_validated += 1
 
 
 # ===================================================================================== entry points
 def run(ctx: Ctx) -> Result:
     res = Result()
     res.rule = ("a case is one file: (energy) one data set written by the real write_energy and re-read, sizes 1-12 x 1-10 x 3-60 with "
-                "the extreme sizes always included; (elast) one static table text; (fill) one `cij fill` invocation; plus variant / "
-                "malformed files derived from them (reader only). distinct_nontrivial = cases whose content differs (all are random "
-                "draws; the fixed variants are distinct kinds).")
+                "the extreme sizes always included, plus data sets with crossing branches; (elast) one static table text; (labels) one "
+                "table per prefix and triangle; (reread) one history of reads / in-place filling / in-place rewrite on one path; (fill, "
+                "shared) one `cij fill` invocation through the `cij` group; (regex) one subject string for one of the three REGEX_* "
+                "constants; plus variant / malformed files derived from them (reader only). distinct_nontrivial = cases whose content "
+                "differs (all are random draws; the fixed variants are distinct kinds).")
     tmp = tempfile.mkdtemp(prefix="cij_c17_")
     try:
         th = ctx.thorough()
+        run_regex(ctx, res, 1500 if th else 250)
         run_energy(ctx, res, tmp, 60 if th else 14)
         run_elast(ctx, res, tmp, 1500 if th else 150)
+        run_labels(ctx, res, tmp)
+        run_reread(ctx, res, tmp, 24 if th else 8)
         run_fill(ctx, res, tmp, 12 if th else 2)
+        run_fill_shared(ctx, res, tmp, 8 if th else 4)
     finally:
         shutil.rmtree(tmp, ignore_errors=True)
     res.distinct_nontrivial = res.evaluations
@@ -796,7 +1231,10 @@ def search(ctx: Ctx, res: Result):
         if not extra.oracle_failures:
             run_energy(ctx, extra, tmp, 40)
             run_elast(ctx, extra, tmp, 600)
+            run_labels(ctx, extra, tmp)
+            run_reread(ctx, extra, tmp, 16)
             run_fill(ctx, extra, tmp, 4)
+            run_fill_shared(ctx, extra, tmp, 8)
     finally:
         shutil.rmtree(tmp, ignore_errors=True)
     return extra.oracle_failures
@@ -817,9 +1255,30 @@ def replay(ctx: Ctx, payload):
                     for w, o, e in oracle_elast(payload["expect"], d)[:3]]
         if kind == "fill":
             case = payload["case"]
-            out = run_cli(case["text"], case["system"], tmp)
+            hist = payload.get("symmetry_history")
+            sym, extra_args = None, ()
+            if hist:
+                # the dictionary object as it was handed in, after the earlier calls of its history (re-enacted on this table)
+                from cij.io.traditional.elast_dat import apply_symetry_on_elast_data
+                sym = copy.deepcopy(hist["initial"])
+                if "drop_atol" in sym: extra_args = ("--drop-atol", repr(sym["drop_atol"]))
+                for _ in range(int(hist["call"]) - 1):
+                    prev = real_read_elast_text(case["text"], tmp, "fill_prev.dat")
+                    try:
+                        apply_symetry_on_elast_data(prev, sym)
+                    except Exception:
+                        pass
+            out = run_cli(case["text"], case["system"], tmp, extra_args)
             return [OracleFailure(what=f"cij fill -s {case['system']}: {w}", input=payload, observed=o, expected=e)
-                    for w, o, e in oracle_fill(case, out, tmp)[:3]]
+                    for w, o, e in oracle_fill(case, out, tmp, sym)[:3]]
+        if kind == "reread-elast":
+            return [OracleFailure(what=f"read_elast_data history: {w}", input=payload, observed=o, expected=e)
+                    for w, o, e in reread_elast_history(payload["system"], payload["text"], tmp, {"system": payload["system"]},
+                                                        package_level=bool(payload.get("package_level")))[:3]]
+        if kind == "reread-energy":
+            bad, _ = reread_energy_history(payload["case1"], payload["case2"], tmp, package_level=bool(payload.get("package_level")))
+            return [OracleFailure(what=f"write_energy/read_energy history: {w}", input=payload, observed=o, expected=e)
+                    for w, o, e in bad[:3]]
         # variant texts carry no oracle (reader behaviour on malformed input is not part of the property)
         return []
     finally:
